@@ -66,7 +66,7 @@ class TlcRun:
                           "depth": res.depth, "wall_s": round(res.wall, 1), "violated": res.violated})
 
 
-def run_exec(tr, what, *, fams=None, simulate=None, depth=14, timeout=900, workers=16, **cfgargs):
+def run_exec(tr, what, *, fams=None, simulate=None, depth=14, timeout=900, workers=16, allow_eval_error=False, **cfgargs):
     """one TLC run of the Exec machine; returns TlcResult (payload lines = cases)"""
     sc = common.spec_copy()
     modname = "MC_ExecF_%d" % len(tr.runs)
@@ -78,6 +78,11 @@ def run_exec(tr, what, *, fams=None, simulate=None, depth=14, timeout=900, worke
     exec_cfg(cfg, focus=fams, **cfgargs)
     res = common.run_tlc(module, cfg, workers=(1 if simulate else workers), simulate=simulate, depth=depth,
                          timeout=timeout, cwd=sc)
+    if allow_eval_error and res.eval_failed and not res.violated:
+        # a deviation model may break a property by making the simplified DAG unevaluable (it reads a column
+        # that no longer exists): for a must-violate run that counts as violating that invariant
+        res.violated = res.eval_failed
+        res.error = None
     common.tlc_or_die(res, what)
     tr.add(what, res)
     return res
